@@ -223,4 +223,194 @@ theorem runCart_inv {depth P L : Nat} : ∀ (es R : List Ev) (tv : TV) (out : Li
     rw [hR]
     exact this
 
+/-! ### from the final state to the specification -/
+
+def single {α : Type} : List α → Option α
+  | [x] => some x
+  | _ => none
+
+theorem single_perm {α : Type} {l l' : List α} (h : l.Perm l') : single l = single l' := by
+  match l, l', h with
+  | [], l', h => rw [List.nil_perm.mp h]
+  | [x], l', h => rw [List.singleton_perm.mp h]
+  | x :: y :: r, l', h =>
+    have hl := h.length_eq
+    match l', hl with
+    | [], hl => simp at hl
+    | [_], hl => simp at hl
+    | _ :: _ :: _, _ => rfl
+
+/-- `cartSchema` with "the unique entry of item `k`" instead of "the first entry": insensitive to the order of
+    the configuration, equal to `cartSchema` on configurations without repeated items -/
+def cartSchemaU (items : List Nat) (cfg : Cfg) : Option (List (Nat × Tok)) :=
+  items.mapM (fun k => (single (cfg.filter (fun x => x.1 = k))).bind (fun x => x.2.toks.head?))
+
+theorem pinv_cartSchemaU (items : List Nat) : PInv (cartSchemaU items) := by
+  intro a b hab
+  unfold cartSchemaU
+  have : (fun k => (single (a.filter (fun x => x.1 = k))).bind (fun x => x.2.toks.head?))
+      = (fun k => (single (b.filter (fun x => x.1 = k))).bind (fun x => x.2.toks.head?)) := by
+    funext k
+    rw [single_perm (hab.filter _)]
+  rw [this]
+
+theorem lookup_eq_single {β : Type} (l : List (Nat × β)) (hnd : (l.map (·.1)).Nodup) (k : Nat) :
+    l.lookup k = (single (l.filter (fun x => x.1 = k))).map (·.2) := by
+  induction l with
+  | nil => rfl
+  | cons x r ih =>
+    obtain ⟨q, v⟩ := x
+    simp only [List.map_cons, List.nodup_cons] at hnd
+    by_cases hk : k = q
+    · subst hk
+      have : r.filter (fun x => x.1 = k) = [] := by
+        apply List.filter_eq_nil_iff.mpr
+        intro y hy
+        simp only [decide_eq_true_eq]
+        exact fun e => hnd.1 (e ▸ List.mem_map.mpr ⟨y, hy, rfl⟩)
+      simp [List.lookup, List.filter_cons, this, single]
+    · have hb : (k == q) = false := by simpa using hk
+      have hq : ¬ q = k := fun e => hk e.symm
+      simp only [List.lookup, hb, List.filter_cons, hq, decide_false, Bool.false_eq_true, if_false]
+      exact ih hnd.2
+
+theorem cartSchema_eq_U (items : List Nat) {cfg : Cfg} (hnd : (cfg.map (·.1)).Nodup) :
+    cartSchema items cfg = cartSchemaU items cfg := by
+  unfold cartSchema cartSchemaU
+  have : (fun k => (cfg.lookup k).bind (fun e => e.toks.head?))
+      = (fun k => (single (cfg.filter (fun x => x.1 = k))).bind (fun x => x.2.toks.head?)) := by
+    funext k
+    rw [lookup_eq_single cfg hnd k]
+    cases single (cfg.filter (fun x => x.1 = k)) <;> rfl
+  rw [this]
+
+theorem rcfgs_eq_U (items : List Nat) {l : List (Nat × List Elem)} (hnd : (l.map (·.1)).Nodup) :
+    rcfgs (cartSchema items) l = rcfgs (cartSchemaU items) l := by
+  unfold rcfgs
+  apply CF.filterMap_congr'
+  intro cfg hcfg
+  exact cartSchema_eq_U items (by rw [keys_of_mem_cartConfigs hcfg]; exact hnd)
+
+theorem cartConfigs_empty_factor {l : List (Nat × List Elem)} {k : Nat} (h : (k, []) ∈ l) : cartConfigs l = [] := by
+  induction l with
+  | nil => cases h
+  | cons x r ih =>
+    obtain ⟨q, vs⟩ := x
+    rcases List.mem_cons.mp h with h | h
+    · cases h; simp [cartConfigs]
+    · simp [cartConfigs, ih h]
+
+theorem cell_eq_map {c : Cell} (hnd : (ckeys c).Nodup) : c = (ckeys c).map (fun q => (q, cget c q)) := by
+  induction c with
+  | nil => rfl
+  | cons x r ih =>
+    obtain ⟨p, d⟩ := x
+    simp only [ckeys, List.map_cons, List.nodup_cons] at hnd
+    have ih' := ih hnd.2
+    show (p, d) :: r = (p, cget ((p, d) :: r) p) :: (ckeys r).map (fun q => (q, cget ((p, d) :: r) q))
+    rw [cget_cons, if_pos rfl]
+    congr 1
+    have : (ckeys r).map (fun q => (q, cget ((p, d) :: r) q)) = (ckeys r).map (fun q => (q, cget r q)) := by
+      apply List.map_congr_left
+      intro q hq
+      have hne : q ≠ p := fun e => hnd.1 (e ▸ hq)
+      rw [cget_cons, if_neg hne]
+    rw [this]
+    exact ih'
+
+/-- the canonical cell of key `κ`: ports in increasing order, the received tokens of the key in stream order -/
+def canonCell (depth P : Nat) (S : List Ev) (κ : Tag) : Cell :=
+  (List.range P).map (fun q => (q, bucket depth S κ q))
+
+/-- **specification of the cartesian product**: for every key (tag without its last `depth` components) the
+    full cross product over the ports of the received tokens with that key, every member retagged with its own
+    tag minus the last component followed by the last components of all members -/
+def specCart (depth P : Nat) (S : List Ev) : List Emit :=
+  ((dedup (S.map (fun e => cartKey depth e.2.tag))).flatMap
+    (fun κ => rcfgs (cartSchema (List.range P)) (canonCell depth P S κ))).map cartEmit
+
+theorem totalL_eq {β : Type} (F : Cfg → Option β) {tv : TV} (hnd : (tkeys tv).Nodup) :
+    totalL F tv = (tkeys tv).flatMap (fun κ => rcfgs F (tcell tv κ)) := by
+  induction tv with
+  | nil => rfl
+  | cons x r ih =>
+    obtain ⟨k, c⟩ := x
+    simp only [tkeys, List.map_cons, List.nodup_cons] at hnd
+    simp only [totalL, tkeys, List.map_cons, List.flatMap_cons, tcell_cons, if_true]
+    congr 1
+    have := ih hnd.2
+    simp only [totalL, tkeys] at this
+    rw [this]
+    apply flatMap_congr'
+    intro κ hκ
+    have : κ ≠ k := fun e => hnd.1 (e ▸ hκ)
+    rw [if_neg this]
+
+theorem bucket_perm {depth : Nat} {es S : List Ev} (h : es.Perm S) (κ : Tag) (q : Nat) :
+    (bucket depth es κ q).Perm (bucket depth S κ q) := (h.filter _).map _
+
+theorem rcfgs_cell_canon {depth P : Nat} {es S : List Ev} (hp : es.Perm S) {c : Cell} (hc : CellOK P c)
+    (κ : Tag) (hcells : ∀ q, cget c q = bucket depth es κ q) :
+    (rcfgs (cartSchema (List.range P)) c).Perm (rcfgs (cartSchema (List.range P)) (canonCell depth P S κ)) := by
+  by_cases hall : ∀ q, q < P → q ∈ ckeys c
+  · have hperm : (ckeys c).Perm (List.range P) :=
+      (List.perm_ext_iff_of_nodup hc.1 List.nodup_range).mpr (fun q =>
+        ⟨fun h => List.mem_range.mpr (hc.2 q h), fun h => hall q (List.mem_range.mp h)⟩)
+    have h1 : c.Perm ((List.range P).map (fun q => (q, cget c q))) := by
+      have := hperm.map (fun q => (q, cget c q))
+      rwa [← cell_eq_map hc.1] at this
+    have hk1 : (((List.range P).map (fun q => (q, cget c q))).map (·.1)).Nodup := by
+      simp only [List.map_map, Function.comp_def, List.map_id']
+      exact List.nodup_range
+    rw [rcfgs_eq_U _ hc.1]
+    refine (rcfgs_perm h1 _ (pinv_cartSchemaU _)).trans ?_
+    rw [← rcfgs_eq_U _ hk1]
+    have := rcfgs_factor_perm ((List.range P).map (fun q => (q, cget c q))) (bucket depth S κ)
+      (fun x hx => by
+        obtain ⟨q, _, rfl⟩ := List.mem_map.mp hx
+        simp only
+        rw [hcells]; exact bucket_perm hp κ q) (cartSchema (List.range P))
+    refine this.trans (List.Perm.of_eq ?_)
+    simp only [canonCell, List.map_map, Function.comp_def]
+  · have : ∃ q, q < P ∧ q ∉ ckeys c := by
+      apply Decidable.by_contra
+      intro hn
+      exact hall (fun q hq => Decidable.by_contra (fun h => hn ⟨q, hq, h⟩))
+    obtain ⟨q, hq, hqn⟩ := this
+    rw [rcfgs_nil_of_missing (List.mem_range.mpr hq) hqn]
+    have hb : bucket depth S κ q = [] := by
+      have := bucket_perm hp κ q (depth := depth)
+      rw [← hcells, cget_of_not_mem hqn] at this
+      exact (List.nil_perm.mp this)
+    have : (q, []) ∈ canonCell depth P S κ := by
+      simp only [canonCell, List.mem_map, List.mem_range]
+      exact ⟨q, hq, by rw [hb]⟩
+    simp [rcfgs, cartConfigs_empty_factor this]
+
+/-- **cartesian product, any arrival order**: every arrival order of a well-formed stream makes the
+    loop-faithful `CartesianProductCombinator` model emit, without raising, exactly the specified schemas -/
+theorem runCart_any_order {depth P L : Nat} (S es : List Ev) (h : WFCart depth P L S) (hp : es.Perm S) :
+    (runCart depth P es).err = none ∧ (runCart depth P es).out.Perm (specCart depth P S) := by
+  have hes : WFCart depth P L es := by
+    obtain ⟨h1, h2, h3, h4, h5, h6⟩ := h
+    exact ⟨h1, h2, hp.nodup_iff.mpr h3, fun e he => h4 e (hp.subset he), fun e he => h5 e (hp.subset he),
+      fun e he e' he' => h6 e (hp.subset he) e' (hp.subset he')⟩
+  obtain ⟨herr, hI⟩ := runCart_inv (depth := depth) (P := P) (L := L) es [] [] []
+    (by simpa using hes) (invCart_init depth P L)
+  simp only [List.nil_append] at hI
+  refine ⟨herr, ?_⟩
+  unfold runCart
+  refine hI.outs.trans (List.Perm.map _ ?_)
+  rw [totalL_eq _ hI.valid.1]
+  have hkeys : (tkeys (runWith (cartAdd depth (List.range P)) es [] []).tv).Perm
+      (dedup (S.map (fun e => cartKey depth e.2.tag))) := by
+    apply (List.perm_ext_iff_of_nodup hI.valid.1 (nodup_dedup _)).mpr
+    intro κ
+    rw [hI.keysIff κ, mem_dedup, List.mem_map]
+    constructor
+    · rintro ⟨e, he, hk⟩; exact ⟨e, hp.subset he, hk⟩
+    · rintro ⟨e, he, hk⟩; exact ⟨e, hp.symm.subset he, hk⟩
+  refine (flatMap_perm_pointwise (fun κ _ => ?_)).trans (hkeys.flatMap_right _)
+  exact rcfgs_cell_canon hp (valid_tcell hI.valid κ) κ (fun q => hI.cells κ q)
+
 end SFV.Comb
